@@ -1,0 +1,30 @@
+//go:build verif
+
+package limit
+
+import "time"
+
+// VerifStepper drives a real Discipline one method call at a time: the value is
+// built exactly like New builds it, but the main goroutine is not started.
+type VerifStepper[Type any] struct {
+	dsc *Discipline[Type]
+}
+
+func VerifNewStepper[Type any](opts Opts[Type]) (*VerifStepper[Type], error) {
+	if err := opts.isValid(); err != nil {
+		return nil, err
+	}
+
+	dsc := &Discipline[Type]{
+		opts: opts,
+
+		output: make(chan Type, 1+cap(opts.Input)),
+	}
+
+	return &VerifStepper[Type]{dsc: dsc}, nil
+}
+
+func (stp *VerifStepper[Type]) Discipline() *Discipline[Type]   { return stp.dsc }
+func (stp *VerifStepper[Type]) Pass() bool                      { return stp.dsc.pass() }
+func (stp *VerifStepper[Type]) Transfer() (time.Duration, bool) { return stp.dsc.transfer() }
+func (stp *VerifStepper[Type]) Delay(duration time.Duration)    { stp.dsc.delay(duration) }
